@@ -1,0 +1,49 @@
+// Copyright 2020-2025 Buf Technologies, Inc.
+//
+// Licensed under the Apache License, Version 2.0 (the "License");
+// you may not use this file except in compliance with the License.
+// You may obtain a copy of the License at
+//
+//      http://www.apache.org/licenses/LICENSE-2.0
+//
+// Unless required by applicable law or agreed to in writing, software
+// distributed under the License is distributed on an "AS IS" BASIS,
+// WITHOUT WARRANTIES OR CONDITIONS OF ANY KIND, either express or implied.
+// See the License for the specific language governing permissions and
+// limitations under the License.
+//go:build verif
+
+package bufprotocompile
+
+// Contracts for the gocv verifier (author ca-C2): the diagnostics of a failed compile as one FileAnnotationSet (C01).
+// Comment-only.
+//
+// WithExternalPathResolver: the option installs exactly the given resolver (closure 0 is the returned option).
+//@ func WithExternalPathResolver(externalPathResolver) (r)
+//@   property C01
+//@   ensures r != nil
+//@   closure 0 ensures installs-the-resolver: fileAnnotationOptions.externalPathResolver == externalPathResolver
+//
+// FileAnnotationSetForErrorsWithPos: one annotation per reported error (closure 0 is the per-error conversion handed to
+// slicesext.MapError: FileAnnotationForErrorWithPos with the SAME options), the conversion fails only if some error is
+// positioned in a file whose path does not validate, and the set holds nothing but those annotations.
+//@ func FileAnnotationSetForErrorsWithPos(errorsWithPos, options) (r, err)
+//@   property C01
+//@   modifies heap, ghost.c2_converted
+//@   reveal c2_annotates
+//@   ghost before "fileAnnotations, err := slicesext.MapError(" c2_converted := errorsWithPos
+//@   closure 0 ensures fails-only-on-invalid-path: (err == nil) <==> (errorWithPos.GetPosition().Filename == "" || second(normalpath.NormalizeAndValidate(errorWithPos.GetPosition().Filename)) == nil)
+//@   closure 0 ensures annotation-exists: err == nil ==> r != nil
+//@   closure 0 ensures position: err == nil ==> r.StartLine() == max(errorWithPos.GetPosition().Line, 0) && r.EndLine() == max(errorWithPos.GetPosition().Line, 0) && r.StartColumn() == max(errorWithPos.GetPosition().Col, 0) && r.EndColumn() == max(errorWithPos.GetPosition().Col, 0)
+//@   closure 0 ensures type-compile: err == nil ==> r.Type() == "COMPILE" && r.PluginName() == ""
+//@   closure 0 ensures file: err == nil ==> ite(errorWithPos.GetPosition().Filename == "", r.FileInfo() == nil, r.FileInfo() != nil && typeOf(r.FileInfo()) == typeId(*fileInfo) && cast(*fileInfo, r.FileInfo()).path == first(normalpath.NormalizeAndValidate(errorWithPos.GetPosition().Filename)))
+//@   ensures fails-only-on-invalid-path: (err == nil) <==> (forall i int :: 0 <= i && i < len(errorsWithPos) ==> errorsWithPos[i].GetPosition().Filename == "" || second(normalpath.NormalizeAndValidate(errorsWithPos[i].GetPosition().Filename)) == nil)
+//@   ensures no-set-on-error: err != nil ==> r == nil
+//@   ensures errors-give-a-set: err == nil && len(errorsWithPos) > 0 ==> r != nil && typeOf(r) == typeId(*bufanalysis.fileAnnotationSet)
+//@   ensures every-annotation-is-a-reported-error: err == nil && len(errorsWithPos) > 0 ==> (forall a int :: 0 <= a && a < len(cast(*bufanalysis.fileAnnotationSet, r).fileAnnotations) ==> (exists i int :: 0 <= i && i < len(errorsWithPos) && c2_annotates(cast(*bufanalysis.fileAnnotationSet, r).fileAnnotations[a], errorsWithPos[i])))
+//@   ensures converts-all-given-errors: ghost.c2_converted == errorsWithPos
+// before de-duplication there is exactly one annotation per error, in order (what the set keeps of them is
+// bufanalysis.NewFileAnnotationSet#post[every-annotation-kept])
+//@   assert before "return bufanalysis.NewFileAnnotationSet(fileAnnotations...), nil" one-annotation-per-error: len(fileAnnotations) == len(errorsWithPos) && (forall i int :: 0 <= i && i < len(errorsWithPos) ==> c2_annotates(fileAnnotations[i], errorsWithPos[i]))
+//@   canary ensures err != nil
+//@   canary ensures err == nil ==> len(errorsWithPos) == 0
